@@ -62,7 +62,7 @@ void Exec::op_alloc(const Op& op) {
   if (p == nullptr) {
     count(C_NULLS);
     if (ea > BLOCK_ALIGNMENT_MAX && eo != 0) return;          // documented: no offset with very large alignment
-    if (!allow_null && req <= MUST_SUCCEED_MAX && ea <= 128*MiB) fail_now("null", "op#%ld %s(n=%zu,a=%zu,o=%zu) returned NULL for a well-formed request", opi, f.c_str(), req, ea, eo);
+    if (!allow_null && req <= MUST_SUCCEED_MAX && ea <= 128*MiB && m.heaps[h > 0 ? h : m.def].arena < 0) fail_now("null", "op#%ld %s(n=%zu,a=%zu,o=%zu) returned NULL for a well-formed request", opi, f.c_str(), req, ea, eo);
     return;
   }
   int home = (h > 0 ? h : m.def);
@@ -147,7 +147,7 @@ void Exec::op_realloc(const Op& op) {
   q = launder(q); count(C_REALLOCS); exempt_lo = exempt_hi = 0;
   if (q == nullptr) {
     count(C_NULLS);
-    bool excused = allow_null || req > MUST_SUCCEED_MAX || (ea > BLOCK_ALIGNMENT_MAX && eo != 0) || ea > 128*MiB;
+    bool excused = allow_null || m.heaps[h > 0 ? h : m.def].arena >= 0 || req > MUST_SUCCEED_MAX || (ea > BLOCK_ALIGNMENT_MAX && eo != 0) || ea > 128*MiB;
     if (!excused) fail_now("null", "op#%ld %s(%p, n=%zu, a=%zu) returned NULL for a well-formed request", opi, f.c_str(), p, req, ea);
     if (frees_on_fail) { model_remove(s, true); return; }
     verify_blk(s, "after-failed-realloc");       // old block untouched
@@ -183,7 +183,7 @@ void Exec::op_realloc(const Op& op) {
   // zero growth: bytes between previous and new requested size, for zero-initialised chains
   if (zeroing && ozmode && req > n_old) { if (qq != p && was_dirty(qq)) flag(F_ZERO_ON_DIRTY); check_zeroed(qq, n_old, req, f.c_str()); }
   // new state of the slot
-  b.n = req; b.zmode = (ozmode && zeroing); b.key = m.next_key++;
+  b.n = req; b.zmode = (ozmode && zeroing && req >= n_old); b.key = m.next_key++;   // the claim covers monotone growth chains only
   if (align_known) { b.a = ea; b.o = eo; } else if (qq != p) { b.a = 1; b.o = 0; }
   model_fill(s);
   verify_neighbours((uintptr_t)qq);
